@@ -1,6 +1,7 @@
 #!/bin/bash
 # tools/merge_slice.sh <name>: merge branch <name> of /tmp/agents/<name>/verif, resolving the routine conflicts
 n="$1"; cd /verif
+git checkout -q -- lean/Pyxv/Generated/Tables.lean evidence 2>/dev/null
 git fetch -q /tmp/agents/$n/verif $n || exit 1
 if git merge --no-edit FETCH_HEAD >/tmp/merge_$n.log 2>&1; then echo "$n: merged cleanly"; else
   for f in $(git diff --name-only --diff-filter=U); do
